@@ -7,68 +7,68 @@ import Influx.Lemmas.DelPredEval
 namespace Influx.Model.DelPred
 
 theorem update_some (g : Nat) (vals : List (Option Bytes)) (n : PNode) (hwf : WFn vals.length n) :
-    ∃ r n', update g vals n = some (r, n') ∧ strip n' = strip n := by
+    ∃ r n', update g vals n = some (r, n') ∧ strip n' = strip n ∧ (GenLE g n → GenLE g n') := by
   induction n with
   | cmp c neq l r =>
     unfold update
     by_cases hcg : c.gen = g
-    · exact ⟨c.resp, .cmp c neq l r, by simp [hcg], rfl⟩
+    · exact ⟨c.resp, .cmp c neq l r, by simp [hcg], rfl, id⟩
     · simp only [hcg, if_false]
       obtain ⟨lx, hl1, _⟩ := operandVal_of_WF vals l hwf.1
       obtain ⟨rx, hr1, _⟩ := operandVal_of_WF vals r hwf.2
       rw [hl1]
       cases lx with
-      | none => exact ⟨_, _, rfl, rfl⟩
+      | none => exact ⟨_, _, rfl, rfl, id⟩
       | some lv =>
         simp only
         rw [hr1]
         cases rx with
-        | none => exact ⟨_, _, rfl, rfl⟩
-        | some rv => exact ⟨_, _, rfl, rfl⟩
+        | none => exact ⟨_, _, rfl, rfl, id⟩
+        | some rv => exact ⟨_, _, rfl, rfl, fun _ => genLE_cmp.2 (Nat.le_refl g)⟩
   | and c l r ihl ihr =>
     obtain ⟨hwl, hwr⟩ := hwf
     unfold update
     by_cases hcg : c.gen = g
-    · exact ⟨c.resp, .and c l r, by simp [hcg], rfl⟩
+    · exact ⟨c.resp, .and c l r, by simp [hcg], rfl, id⟩
     · simp only [hcg, if_false]
-      obtain ⟨rl, l', hul, hsl⟩ := ihl hwl
-      obtain ⟨rr, r', hur, hsr⟩ := ihr hwr
+      obtain ⟨rl, l', hul, hsl, hgl⟩ := ihl hwl
+      obtain ⟨rr, r', hur, hsr, hgr⟩ := ihr hwr
       rw [hul]
       cases rl with
-      | false_ => exact ⟨_, _, rfl, by simp [strip, hsl]⟩
-      | needMore => exact ⟨_, _, rfl, by simp [strip, hsl]⟩
+      | false_ => exact ⟨_, _, rfl, by simp [strip, hsl], fun h => by have h := genLE_and.1 h; exact genLE_and.2 ⟨Nat.le_refl g, hgl h.2.1, h.2.2⟩⟩
+      | needMore => exact ⟨_, _, rfl, by simp [strip, hsl], fun h => by have h := genLE_and.1 h; exact genLE_and.2 ⟨h.1, hgl h.2.1, h.2.2⟩⟩
       | true_ =>
         simp only
         rw [hur]
         cases rr with
-        | false_ => exact ⟨_, _, rfl, by simp [strip, hsl, hsr]⟩
-        | needMore => exact ⟨_, _, rfl, by simp [strip, hsl, hsr]⟩
-        | true_ => exact ⟨_, _, rfl, by simp [strip, hsl, hsr]⟩
+        | false_ => exact ⟨_, _, rfl, by simp [strip, hsl, hsr], fun h => by have h := genLE_and.1 h; exact genLE_and.2 ⟨by first | exact Nat.le_refl g | exact h.1, hgl h.2.1, hgr h.2.2⟩⟩
+        | needMore => exact ⟨_, _, rfl, by simp [strip, hsl, hsr], fun h => by have h := genLE_and.1 h; exact genLE_and.2 ⟨by first | exact Nat.le_refl g | exact h.1, hgl h.2.1, hgr h.2.2⟩⟩
+        | true_ => exact ⟨_, _, rfl, by simp [strip, hsl, hsr], fun h => by have h := genLE_and.1 h; exact genLE_and.2 ⟨by first | exact Nat.le_refl g | exact h.1, hgl h.2.1, hgr h.2.2⟩⟩
   | or c l r ihl ihr =>
     obtain ⟨hwl, hwr⟩ := hwf
     unfold update
     by_cases hcg : c.gen = g
-    · exact ⟨c.resp, .or c l r, by simp [hcg], rfl⟩
+    · exact ⟨c.resp, .or c l r, by simp [hcg], rfl, id⟩
     · simp only [hcg, if_false]
-      obtain ⟨rl, l', hul, hsl⟩ := ihl hwl
-      obtain ⟨rr, r', hur, hsr⟩ := ihr hwr
+      obtain ⟨rl, l', hul, hsl, hgl⟩ := ihl hwl
+      obtain ⟨rr, r', hur, hsr, hgr⟩ := ihr hwr
       rw [hul]
       cases rl with
-      | true_ => exact ⟨_, _, rfl, by simp [strip, hsl]⟩
+      | true_ => exact ⟨_, _, rfl, by simp [strip, hsl], fun h => by have h := genLE_or.1 h; exact genLE_or.2 ⟨Nat.le_refl g, hgl h.2.1, h.2.2⟩⟩
       | false_ =>
         simp only
         rw [hur]
         cases rr with
-        | true_ => exact ⟨_, _, rfl, by simp [strip, hsl, hsr]⟩
-        | false_ => exact ⟨_, _, rfl, by simp [strip, hsl, hsr]⟩
-        | needMore => exact ⟨_, _, rfl, by simp [strip, hsl, hsr]⟩
+        | true_ => exact ⟨_, _, rfl, by simp [strip, hsl, hsr], fun h => by have h := genLE_or.1 h; exact genLE_or.2 ⟨by first | exact Nat.le_refl g | exact h.1, hgl h.2.1, hgr h.2.2⟩⟩
+        | false_ => exact ⟨_, _, rfl, by simp [strip, hsl, hsr], fun h => by have h := genLE_or.1 h; exact genLE_or.2 ⟨by first | exact Nat.le_refl g | exact h.1, hgl h.2.1, hgr h.2.2⟩⟩
+        | needMore => exact ⟨_, _, rfl, by simp [strip, hsl, hsr], fun h => by have h := genLE_or.1 h; exact genLE_or.2 ⟨by first | exact Nat.le_refl g | exact h.1, hgl h.2.1, hgr h.2.2⟩⟩
       | needMore =>
         simp only
         rw [hur]
         cases rr with
-        | true_ => exact ⟨_, _, rfl, by simp [strip, hsl, hsr]⟩
-        | false_ => exact ⟨_, _, rfl, by simp [strip, hsl, hsr]⟩
-        | needMore => exact ⟨_, _, rfl, by simp [strip, hsl, hsr]⟩
+        | true_ => exact ⟨_, _, rfl, by simp [strip, hsl, hsr], fun h => by have h := genLE_or.1 h; exact genLE_or.2 ⟨by first | exact Nat.le_refl g | exact h.1, hgl h.2.1, hgr h.2.2⟩⟩
+        | false_ => exact ⟨_, _, rfl, by simp [strip, hsl, hsr], fun h => by have h := genLE_or.1 h; exact genLE_or.2 ⟨by first | exact Nat.le_refl g | exact h.1, hgl h.2.1, hgr h.2.2⟩⟩
+        | needMore => exact ⟨_, _, rfl, by simp [strip, hsl, hsr], fun h => by have h := genLE_or.1 h; exact genLE_or.2 ⟨by first | exact Nat.le_refl g | exact h.1, hgl h.2.1, hgr h.2.2⟩⟩
 
 /-! ### each pop consumes at least one byte -/
 
@@ -136,16 +136,17 @@ theorem popTagEscape_rest_lt (s : Bytes) (hs : s ≠ []) : (popTagEscape s).2.2.
 theorem matchLoop_total (em : Bool) (fuel : Nat) (m : Matcher) (key : Bytes)
     (hfuel : key.length ≤ fuel) (hwf : WFn m.values.length m.root) :
     ∃ b m', matchLoop em fuel m key = some (b, m') ∧ strip m'.root = strip m.root ∧
-      m'.values.length = m.values.length ∧ m'.locs = m.locs ∧ m'.gen = m.gen := by
+      m'.values.length = m.values.length ∧ m'.locs = m.locs ∧ m'.gen = m.gen ∧
+      (GenLE m.gen m.root → GenLE m.gen m'.root) := by
   induction fuel generalizing m key with
   | zero =>
     have : key = [] := List.eq_nil_of_length_eq_zero (by omega)
     subst this
-    exact ⟨false, m, by simp [matchLoop], rfl, rfl, rfl, rfl⟩
+    exact ⟨false, m, by simp [matchLoop], rfl, rfl, rfl, rfl, id⟩
   | succ f ih =>
     rw [matchLoop]
     by_cases hk : key = []
-    · exact ⟨false, m, by simp [hk], rfl, rfl, rfl, rfl⟩
+    · exact ⟨false, m, by simp [hk], rfl, rfl, rfl, rfl, id⟩
     · simp only [hk, if_false]
       have hrest : (if em = true then popTagEscape key else popTag key).2.2.length ≤ f := by
         cases em with
@@ -163,28 +164,43 @@ theorem matchLoop_total (em : Bool) (fuel : Nat) (m : Matcher) (key : Bytes)
         | some i =>
           simp only
           have hwf1 : WFn (m.values.set i value).length m.root := by simpa using hwf
-          obtain ⟨r, root', hu, hs⟩ := update_some m.gen (m.values.set i value) m.root hwf1
+          obtain ⟨r, root', hu, hs, hgp⟩ := update_some m.gen (m.values.set i value) m.root hwf1
           rw [hu]
           cases r with
-          | true_ => exact ⟨true, _, rfl, hs, by simp, rfl, rfl⟩
-          | false_ => exact ⟨false, _, rfl, hs, by simp, rfl, rfl⟩
+          | true_ => exact ⟨true, _, rfl, hs, by simp, rfl, rfl, hgp⟩
+          | false_ => exact ⟨false, _, rfl, hs, by simp, rfl, rfl, hgp⟩
           | needMore =>
             simp only
             have hwf2 : WFn (m.values.set i value).length root' := (WFn_congr hs _).2 hwf1
-            obtain ⟨b, m', h1, h2, h3, h4, h5⟩ :=
+            obtain ⟨b, m', h1, h2, h3, h4, h5, h6⟩ :=
               ih { m with values := m.values.set i value, root := root' } rest hrest hwf2
-            exact ⟨b, m', h1, h2.trans hs, by simpa using h3, h4, h5⟩
+            exact ⟨b, m', h1, h2.trans hs, by simpa using h3, h4, h5, fun h => h6 (hgp h)⟩
+
+theorem genLE_succ {g : Nat} (n : PNode) (hg : GenLE g n) : GenLE (g + 1) n := by
+  induction n with
+  | cmp c neq l r => exact genLE_cmp.2 (Nat.le_succ_of_le (genLE_cmp.1 hg))
+  | and c l r ihl ihr =>
+    obtain ⟨a, b, c'⟩ := genLE_and.1 hg
+    exact genLE_and.2 ⟨Nat.le_succ_of_le a, ihl b, ihr c'⟩
+  | or c l r ihl ihr =>
+    obtain ⟨a, b, c'⟩ := genLE_or.1 hg
+    exact genLE_or.2 ⟨Nat.le_succ_of_le a, ihl b, ihr c'⟩
 
 theorem matches_total (m : Matcher) (key : Bytes) (hwf : WFn m.values.length m.root) :
-    ∃ b m', m.matches key = some (b, m') ∧ WFn m'.values.length m'.root := by
+    ∃ b m', m.matches key = some (b, m') ∧ WFn m'.values.length m'.root ∧
+      strip m'.root = strip m.root ∧ m'.values.length = m.values.length ∧ m'.locs = m.locs ∧
+      (GenLE m.gen m.root → GenLE m'.gen m'.root) := by
   unfold Matcher.matches
   have hwfR : WFn m.reset.values.length m.reset.root := by simpa [Matcher.reset] using hwf
-  obtain ⟨b, m', h1, h2, h3, _, _⟩ :=
+  obtain ⟨b, m', h1, h2, h3, h4, h5, h6⟩ :=
     matchLoop_total ((cutFieldSep key).contains 92) (cutFieldSep key).length m.reset (cutFieldSep key)
       (Nat.le_refl _) hwfR
-  refine ⟨b, m', h1, ?_⟩
-  rw [h3]
-  exact (WFn_congr h2 _).2 hwfR
+  refine ⟨b, m', h1, ?_, h2, by rw [h3]; simp [Matcher.reset], h4, ?_⟩
+  · rw [h3]
+    exact (WFn_congr h2 _).2 hwfR
+  · intro hg
+    rw [h5]
+    exact h6 (genLE_succ _ hg)
 
 /-! ### every tree that compiles has its slot indices in range -/
 
